@@ -23,6 +23,7 @@ type chromeCase struct {
 	ID       int      `json:"id"`
 	A        string   `json:"a"`
 	B        string   `json:"b"`
+	Alt      string   `json:"alt,omitempty"` // the reference in an environment that understands more (differences that match it are waived)
 	Dom      string   `json:"dom,omitempty"`
 	DomA     string   `json:"domA,omitempty"`
 	DomB     string   `json:"domB,omitempty"`
@@ -223,6 +224,19 @@ func checkC12(r *Run) {
 				sig = "deviation[" + strings.Join(tags, ",") + "]:"
 			}
 			add(chromeCase{A: src, B: out, Dom: cssDOM, Custom: g.customList()}, c12Meta{kind: "transform", variant: v.name, sig: sig, replay: map[string]interface{}{"input": src, "variant": v.name, "output": out, "modern": modern, "hostile": hostile, "known_deviation_tags": tags}})
+			// the same pair in environments that understand less: the newer selector pseudo-classes (or the newer colour
+			// functions) are renamed to unknown ones in both sheets, which makes Chrome drop the rules (declarations) that use
+			// them exactly as a browser without that syntax would. Only without a target: lowering is allowed to add :is().
+			if v.engines == nil && i%2 == 0 {
+				for ei, env := range c12Envs {
+					la, lb := env.re.ReplaceAllString(src, env.repl), env.re.ReplaceAllString(out, env.repl)
+					if la == src && lb == out {
+						continue
+					}
+					add(chromeCase{A: la, B: lb, Alt: src, Dom: cssDOM, Custom: g.customList()}, c12Meta{kind: "transform-env-" + env.name, variant: v.name, sig: sig, replay: map[string]interface{}{"input": src, "variant": v.name, "output": out, "environment": env.name, "input_in_environment": la, "output_in_environment": lb, "known_deviation_tags": tags}})
+					_ = ei
+				}
+			}
 		}
 	})
 	c12Imports(r, &st, add)
@@ -303,6 +317,15 @@ func cssValueClass(v string) string {
 
 // ---------------------------------------------------------------------------------------------------
 // @import graphs
+
+// environments that understand less, emulated in Chrome by renaming syntax to unknown syntax in both sheets
+var c12Envs = []struct {
+	name string
+	re   *regexp.Regexp
+	repl string
+}{
+	{"no-selector-list-pseudo-classes", regexp.MustCompile(`:(is|where|has|not)\(`), ":-x-$1("},
+}
 
 // a padding declaration with a negative (hence invalid) component
 var cssNegativePadding = regexp.MustCompile(`padding(-[a-z]+)?\s*:[^;{}]*[\s:]-(\d*\.)?\d*[1-9]`)
